@@ -24,7 +24,7 @@ META = {
     "title": "Register allocation never gives one register to two live values",
     "category": "proof",
     "design_ref": "DESIGN.md §5 C19",
-    "lean_modules": ["XdslProofs.C19"],
+    "lean_modules": ["XdslProofs.C19", "XdslProofs.C19Stack"],
     "text": (
         "Lean theorems over straight-line blocks of operations with ins/outs/in-out pairs, for EVERY instruction "
         "semantics (opcode meaning is a parameter), all inputs and all initial register contents: "
@@ -40,7 +40,14 @@ META = {
         "validator, keeps pre-assigned registers and assigns every value; stack_inv: at every point of the "
         "backward walk the available registers are duplicate-free, disjoint from the registers of the live "
         "values, come from the pool minus pre-assigned registers (or are infinite registers created so far) and "
-        "no two live values share a register. "
+        "no two live values share a register. RegisterStack itself (XdslProofs.C19Stack, model RStack: push/pop/"
+        "include/exclude/reserve/unreserve with reservation counts and the AssertionError of pop): for every "
+        "configuration, state and operation sequence a reserved register is never returned by pop and never made "
+        "available by push (pop_never_reserved, push_reserved_noop, reserved_window), an excluded finite register "
+        "neither until it is included again (push_excluded_noop, excluded_window), counts go up/down by one and a key "
+        "is present iff its count is positive, under the documented contract (never reserve an available register) "
+        "no AssertionError arises (contract_no_assertion), and the allocator model's push/pop are this stack without "
+        "reservations (push_eq_spush, pop_eq_spop). "
         "Tie to /repo: every generated function (riscv and x86 dialect ops, pre-assigned registers, restricted "
         "pools, infinite registers, riscv_scf.for loops incl. nested, x86 after x86-regalloc-legalize) is built as "
         "real IR and allocated by the real pass/allocator; the registers are read back and (a) judged by an "
@@ -49,14 +56,17 @@ META = {
         "functions with riscv_scf.for loops after unrolling the loops along their execution path (all generated "
         "loops have constant bounds; every copy of a value keeps its register), and "
         "(c) for loop-free integer blocks compared register by register with the Lean model allocator, "
-        "including the failure kind (OutOfRegisters / DiagnosticException)."
+        "including the failure kind (OutOfRegisters / DiagnosticException); (d) the real RegisterStack API is "
+        "driven directly through every call sequence of the small scope and compared, result and complete state "
+        "after every call, with the Lean model (driver model register_stack)."
     ),
     "technique": "Lean 4 proved validator + proved model of the block-naive allocator; translation validation of "
                  "every real allocation; independent Python liveness/interference oracle and differential execution",
     "level_note": (
         "Partial points: the allocator theorem (alloc_no_interference_partial, stack_inv) covers straight-line "
         "blocks incl. in/out pairs; the loop part of the allocator (ForRofOperation.allocate_registers, register "
-        "reservation) is not modelled in Lean: functions with loops are judged by the Python oracle (loop lowering "
+        "reservation) is not modelled in Lean beyond the RegisterStack it uses (reservation counts and exclusion are "
+        "modelled and proved in C19Stack, tied by the exhaustive small-scope API correspondence): functions with loops are judged by the Python oracle (loop lowering "
         "of convert-riscv-scf-to-riscv-cf transcribed by hand in exec_regs / unroll) and by the proved validator "
         "on their unrolled execution path only (one path per function, not all trip counts). Excluded from the quantifier: inputs whose pre-assignment itself makes "
         "two interfering values share a register (the generator repairs them); x86 inputs violating the documented "
@@ -74,7 +84,10 @@ META = {
         "share), fans with k=1..17 simultaneously live values against pools of k-1..k+1 registers, x86 "
         "straight-line with in/out ops (disciplined) and arbitrary ones after x86-regalloc-legalize; 35% with "
         "extra pre-assigned registers, 35% with restricted pools of 1..8 registers, some with infinite "
-        "registers. Non-trivial = allocation succeeded, oracle passed and at least 2 values without "
+        "registers. Plus the RegisterStack API stream: every sequence of push/pop/include/exclude/reserve/unreserve "
+        "over t0,t1,t2,j_0 with and without infinite registers up to the stated length (one evaluation per call; "
+        "non-trivial = a pop that returns a register or a push/include of a reserved register). "
+        "Non-trivial = allocation succeeded, oracle passed and at least 2 values without "
         "pre-assigned register are simultaneously live; distinct = distinct case JSON."
     ),
     "trusted_base": [
@@ -2056,11 +2069,210 @@ def fixed_cases() -> list[tuple[dict, str]]:
     return out
 
 
+# ---------------------------------------------------------------------------------------------
+# RegisterStack: direct small-scope correspondence of the real API with the Lean model
+# (push / pop / include / exclude / reserve / unreserve, reservation counts, AssertionError of pop)
+# ---------------------------------------------------------------------------------------------
+RS_INF = 1000                      # infinite register j_n (Python index ~n) is RS_INF + n in the model
+RS_FINITE = [5, 6, 7]              # t0, t1, t2
+RS_SITE = "xdsl.backend.register_stack.RegisterStack."
+
+
+def rs_enc(i: int) -> int:
+    return i if i >= 0 else RS_INF + (~i)
+
+
+def rs_ops(nfinite: int) -> list[tuple]:
+    regs = RS_FINITE[:nfinite] + [-1]          # and the first infinite register j_0
+    ops: list[tuple] = [("pop",)]
+    for r in regs:
+        ops += [("include", r), ("exclude", r), ("push", r), ("reserve", r), ("unreserve", r)]
+    return ops
+
+
+_RS: dict = {}
+
+
+def _rs_env() -> dict:
+    if not _RS:
+        from xdsl.backend.register_stack import RegisterStack
+        from xdsl.dialects.riscv import IntRegisterType
+        _RS.update(cls=RegisterStack, ty=IntRegisterType, key=IntRegisterType.register_pool_key(),
+                   regs={i: IntRegisterType.from_index(i) for i in RS_FINITE + [-1, -2, -3]})
+    return _RS
+
+
+def rs_new(allow_infinite: bool):
+    return _rs_env()["cls"](allow_infinite=allow_infinite)
+
+
+def rs_clone(rs):
+    k = _rs_env()["key"]
+    c = _RS["cls"](allow_infinite=rs.allow_infinite)
+    c.allocatable_registers[k] = set(rs.allocatable_registers[k])
+    c.next_infinite_indices[k] = rs.next_infinite_indices[k]
+    d = c.reserved_registers[k]
+    for i, n in rs.reserved_registers[k].items():
+        d[i] = n
+    c.available_registers[k] = list(rs.available_registers[k])
+    return c
+
+
+def rs_snapshot(rs, check_pools: bool = False) -> dict:
+    key = _rs_env()["key"]
+    if check_pools:
+        extra = [k for d in (rs.allocatable_registers, rs.next_infinite_indices, rs.reserved_registers,
+                             rs.available_registers) for k in d if k != key and d[k]]
+        if extra:
+            raise core.InfraError(f"RegisterStack touched another pool: {extra}")
+    return {"avail": [rs_enc(i) for i in rs.available_registers[key]],
+            "alloc": sorted(rs_enc(i) for i in rs.allocatable_registers[key]),
+            "res": sorted((rs_enc(i), n) for i, n in rs.reserved_registers[key].items()),
+            "next": rs.next_infinite_indices[key]}
+
+
+def rs_show(sn: dict) -> str:
+    return ("avail=" + ",".join(map(str, sn["avail"])) + " alloc=" + ",".join(map(str, sn["alloc"]))
+            + " res=" + ",".join(f"{r}:{n}" for r, n in sn["res"]) + f" next={sn['next']}")
+
+
+def rs_apply(rs, op: tuple) -> str:
+    env = _rs_env()
+    try:
+        if op[0] == "pop":
+            reg = rs.pop(env["ty"])
+            return f"reg {rs_enc(reg.index.data)}"
+        reg = env["regs"][op[1]]
+        res = {"include": rs.include_register, "exclude": rs.exclude_register, "push": rs.push,
+               "reserve": rs.reserve_register, "unreserve": rs.unreserve_register}[op[0]](reg)
+        return "none" if res is None else f"unexpected {res!r}"
+    except Exception as e:  # noqa: BLE001
+        return "raise " + core.exc_name(e)
+
+
+def rs_line(op: tuple) -> str:
+    return op[0] if op[0] == "pop" else f"{op[0]} {rs_enc(op[1])}"
+
+
+def rs_oracle(before: dict, op: tuple, out: str, after: dict) -> tuple[str, str] | None:
+    """the sentence 'a reserved or excluded register is never returned by pop and never made
+    available by push', judged on the real object's state before/after one call"""
+    reserved = {r for r, _n in before["res"]}
+    if op[0] == "pop":
+        if out.startswith("reg "):
+            r = int(out.split()[1])
+            if r in reserved:
+                return ("pop", "pop returned a reserved register")
+            if r < RS_INF and r not in before["alloc"]:
+                return ("pop", "pop returned an excluded (non-allocatable) register")
+        return None
+    r = rs_enc(op[1])
+    if op[0] in ("push", "include"):
+        if r in reserved and r not in before["avail"] and r in after["avail"]:
+            return (op[0], "push made a reserved register available")
+        if op[0] == "push" and r < RS_INF and r not in before["alloc"] and r in after["avail"]:
+            return ("push", "push made an excluded (non-allocatable) register available")
+    if op[0] == "exclude" and (r in after["avail"] or r in after["alloc"]):
+        return ("exclude", "register still available/allocatable after exclude_register")
+    if op[0] in ("reserve", "unreserve") and out == "none":
+        cnt = dict(before["res"]).get(r, 0) + (1 if op[0] == "reserve" else -1)
+        if dict(after["res"]).get(r, 0) != cnt:
+            return (op[0], "reservation count not incremented/decremented by one")
+    if any(n <= 0 and (r2, n) not in before["res"] for r2, n in after["res"]):
+        return (op[0], "non-positive reservation count stored")
+    return None
+
+
+def rs_replay_path(allow_infinite: bool, path: list) -> tuple[list[str], list[str], tuple | None]:
+    rs = rs_new(allow_infinite)
+    lines, obs, bad = [f"reset {int(allow_infinite)} {RS_INF}"], ["ok"], None
+    for op in path:
+        op = tuple(op)
+        before = rs_snapshot(rs)
+        out = rs_apply(rs, op)
+        after = rs_snapshot(rs, check_pools=True)
+        lines.append(rs_line(op)); obs.append(out + " | " + rs_show(after))
+        bad = bad or rs_oracle(before, op, out, after)
+    return lines, obs, bad
+
+
+def run_register_stack(ctx: core.Ctx, nfinite: int, depth: int, memo: bool) -> None:
+    """Every operation sequence up to `depth` over `nfinite` finite registers + j_0, with and without
+    infinite registers.  With `memo` a state already expanded with at least as many remaining steps
+    is not expanded again (the object's behaviour is a function of its five dataclass fields, all
+    of which are part of the compared state)."""
+    import dataclasses
+    from xdsl.backend.register_stack import RegisterStack
+    fields = sorted(f.name for f in dataclasses.fields(RegisterStack))
+    if fields != ["allocatable_registers", "allow_infinite", "available_registers", "next_infinite_indices",
+                  "reserved_registers"]:
+        raise core.InfraError(f"RegisterStack has other state than the model: {fields}")
+    ops = rs_ops(nfinite)
+    for allow_infinite in (False, True):
+        lines = [f"reset {int(allow_infinite)} {RS_INF}"]
+        expect = ["ok"]
+        paths: list[tuple | None] = [None]
+        seen: dict[str, int] = {}
+        path: list[tuple] = []
+        calls = 0
+
+        def explore(rs, before: dict, d: int) -> None:
+            nonlocal calls
+            if d == 0:
+                return
+            if memo:
+                k = rs_show(before)
+                if seen.get(k, 0) >= d:
+                    return
+                seen[k] = d
+            for op in ops:
+                c = rs_clone(rs)
+                out = rs_apply(c, op)
+                after = rs_snapshot(c)
+                calls += 1
+                path.append(op)
+                lines.extend(["dup", rs_line(op)])
+                expect.extend(["ok", out + " | " + rs_show(after)])
+                paths.extend([None, tuple(path)])
+                bad = rs_oracle(before, op, out, after)
+                if bad is not None:
+                    ctx.fail(RS_SITE + bad[0], bad[1],
+                             {"stream": "register_stack", "allow_infinite": allow_infinite, "ops": [list(o) for o in path]},
+                             f"{bad[1]}: `{rs_line(op)}` in state `{rs_show(before)}` gave `{out}` / `{rs_show(after)}`",
+                             out + " | " + rs_show(after), None)
+                if out.startswith("reg ") or (op[0] in ("push", "include") and dict(before["res"]).get(rs_enc(op[1]) if len(op) > 1 else -1)):
+                    ctx.nt(("rs", allow_infinite, tuple(path)))
+                explore(c, after, d - 1)
+                path.pop()
+                lines.append("drop"); expect.append("ok"); paths.append(None)
+
+        rs0 = rs_new(allow_infinite)
+        explore(rs0, rs_snapshot(rs0), depth)
+        ctx.ev(calls)
+        ctx.count(f"register_stack.calls.{'memo' if memo else 'full'}", calls)
+        if memo:
+            ctx.count("register_stack.distinct_states", len(seen))
+        model = ctx.model("register_stack", lines)
+        i = core.diff_streams(expect, model)
+        if i is not None:
+            pth = next((paths[j] for j in range(i, -1, -1) if paths[j] is not None), ()) if paths[i] is None else paths[i]
+            ctx.mismatch("correspondence:C19/register_stack",
+                         {"stream": "register_stack", "allow_infinite": allow_infinite, "ops": [list(o) for o in (pth or ())]},
+                         expect[i], model[i], f"real RegisterStack `{expect[i]}` vs Lean model `{model[i]}` after `{lines[i]}`")
+
+
 def run(ctx: core.Ctx) -> None:
     ctx.lean()
     quick = ctx.tier == "quick"
     budget = ctx.budget_s
     lean_batch: list = []
+    # RegisterStack API: all sequences up to 2 (quick) / 4 (thorough) calls literally, up to 5 / 7 modulo equal states
+    run_register_stack(ctx, nfinite=3, depth=2 if quick else 4, memo=False)
+    run_register_stack(ctx, nfinite=3, depth=5 if quick else 7, memo=True)
+    ctx.extra["exhaustive_scope"] = (
+        "RegisterStack API only: every sequence of push/pop/include/exclude/reserve/unreserve over t0,t1,t2,j_0 "
+        f"(allow_infinite on and off) up to length {2 if quick else 4} literally and up to length {5 if quick else 7} "
+        "modulo states already expanded; the allocation streams are random")
     for case, stream in fixed_cases():
         process(ctx, case, lean_batch, stream)
     n = 0
@@ -2079,6 +2291,16 @@ def run(ctx: core.Ctx) -> None:
 
 def replay(ctx: core.Ctx, body: dict) -> int:
     case = body["case"]
+    if case.get("stream") == "register_stack":
+        lines, obs, bad = rs_replay_path(bool(case["allow_infinite"]), case["ops"])
+        model = ctx.model("register_stack", lines)
+        print("calls         :", lines[1:], "(allow_infinite =", case["allow_infinite"], ")")
+        for l, o, m in zip(lines, obs, model):
+            print(f"  {l:16s} real: {o:60s} model: {m}")
+        print("oracle        :", bad)
+        print("property", "FAILS" if bad else "holds", "on this case;",
+              "model and implementation", "DIFFER" if obs != model else "agree")
+        return 1 if (bad or obs != model) else 0
     res = prepare(case)
     verdict = judge(case, res, ctx.rng)
     print("case:", json.dumps(case))
